@@ -63,4 +63,9 @@ def storeRefOf (mk : Bits → List R → Option R) (c : Bits × List R) (b : Bui
 /-- a value that must not be `None` where the model has no `None` (e.g. a sub-continuation): `None` = outside the domain -/
 def unNone {α : Type} : Option α → SOp R α := SOp.ofOption
 
+/-- the stack value for what `VmCont.deserialize` returned: a continuation, or `None` (no constructor tag matched) -/
+def valOfOptCont : Option (Spec.Vm.Cont R) → Spec.Vm.Val R
+  | some k => Spec.Vm.Val.cont k
+  | none => Spec.Vm.Val.null
+
 end TonVerif.Py.Tlb
